@@ -446,7 +446,7 @@ def finish(ctx: Ctx, mod, replay_fn=None) -> int:
         p = replay_dir / f"{h}.json"
         rec = {kk: vv for kk, vv in rec.items() if kk != "_block"}
         p.write_text(json.dumps({"property": ctx.prop, "count_in_run": agg.vcount[k], **rec},
-                                indent=1, ensure_ascii=False, default=str))
+                                indent=1, ensure_ascii=True, default=str))  # ASCII: cases may hold lone surrogates
         unknown_lines.append((p, rec, agg.vcount[k]))
 
     for f in known:
@@ -454,8 +454,8 @@ def finish(ctx: Ctx, mod, replay_fn=None) -> int:
             print(f"KNOWN-FINDING: property={ctx.prop} {f['id']}: {f['what']} [{known_hits[f['id']]} case(s) in this run]")
     for p, rec, n in unknown_lines:
         print(f"VIOLATION property={ctx.prop} replay={p}")
-        print(f"  kind={rec['kind']} sig={json.dumps(rec['sig'], ensure_ascii=False)} cases={n}")
-        print(f"  case={json.dumps(rec['case'], ensure_ascii=False, default=str)[:600]}")
+        print(f"  kind={rec['kind']} sig={json.dumps(rec['sig'], ensure_ascii=True)} cases={n}")
+        print(f"  case={json.dumps(rec['case'], ensure_ascii=True, default=str)[:600]}")
         if rec.get("detail"):
             print("  detail=" + rec["detail"][:600].replace("\n", "\n    "))
 
@@ -493,7 +493,7 @@ def finish(ctx: Ctx, mod, replay_fn=None) -> int:
     evdir = out_root / "evidence"
     evdir.mkdir(parents=True, exist_ok=True)
     evpath = evdir / f"{ctx.prop}.json"
-    evpath.write_text(json.dumps(ev, indent=1, ensure_ascii=False, default=str) + "\n")
+    evpath.write_text(json.dumps(ev, indent=1, ensure_ascii=True, default=str) + "\n")
     validate_evidence(evpath)
     print(f"[{ctx.prop}/{ctx.tier}] evaluations={agg.evaluations} nontrivial={len(agg.nontrivial)} "
           f"states={cov['states']} transitions={cov['transitions']} outcomes={len(agg.outcomes)} "
